@@ -30,7 +30,15 @@ Theorem C12_code_conforms :
   && skel_eqb skel_FileIP_WriteAuditLogToFile exp_FileIP_WriteAuditLogToFile
   && skel_eqb skel_Task_writeAuditLogs exp_Task_writeAuditLogs
   && skel_eqb skel_InPort_CloseConnection exp_InPort_CloseConnection
-  && skel_eqb skel_InParamPort_CloseConnection exp_InParamPort_CloseConnection = true.
+  && skel_eqb skel_InParamPort_CloseConnection exp_InParamPort_CloseConnection
+  && skel_eqb skel_Task_drainStreamingInputs exp_Task_drainStreamingInputs
+  && skel_eqb skel_Sink_Run exp_Sink_Run = true.
+Proof. vm_compute. reflexivity. Qed.
+
+(* no `go func() {...}()` literal anywhere in the two packages mentions a variable of an enclosing for / range header: the
+   module says `go 1.13`, so such a variable is one variable for all iterations and the goroutine would read it while the loop
+   assigns it (computed by the translator with go/types on every run; the idiom is to pass the value as an argument) *)
+Theorem C12_no_goroutine_captures_a_loop_variable : go_captures_loop_var = [].
 Proof. vm_compute. reflexivity. Qed.
 
 (* (2) the discipline, computed on the skeletons regenerated in this run *)
@@ -92,7 +100,9 @@ Proof. split; vm_compute; reflexivity. Qed.
    resolved to every implementation) is one the models were compared with -- a helper that is new to the cone, or a new call
    of an old one, changes a list (the lists are regenerated from /repo on every run; ExpectedCones.v holds the accepted ones) *)
 Theorem C12_cone_conforms :
-  strs_eqb cone_FileIP_auditInfoSnapshot exp_cone_FileIP_auditInfoSnapshot
+  strs_eqb cone_Task_drainStreamingInputs exp_cone_Task_drainStreamingInputs
+  && strs_eqb cone_Sink_Run exp_cone_Sink_Run
+  &&   strs_eqb cone_FileIP_auditInfoSnapshot exp_cone_FileIP_auditInfoSnapshot
   && strs_eqb cone_FileIP_Tags exp_cone_FileIP_Tags
   && strs_eqb cone_FileIP_AddTag exp_cone_FileIP_AddTag
   && strs_eqb cone_FileIP_AddTags exp_cone_FileIP_AddTags
@@ -124,3 +134,4 @@ Print Assumptions C12_tags_refuted_before_repair.
 Print Assumptions C12_feeder_refuted_before_repair.
 Print Assumptions C12_cone_conforms.
 Print Assumptions C12_shared_ip_half_done_refuted.
+Print Assumptions C12_no_goroutine_captures_a_loop_variable.
